@@ -998,12 +998,16 @@ fn observe(bin: &str, dir: &Path, flags: &Flags) -> Observed {
     let validate = run("config validate", sv(&["config", "validate"]));
     let show = run("config show", sv(&["config", "show"]));
     let stats = run("stats summary", sv(&["stats", "summary", "--no-sloc-cache"]));
+    let sources = run("explain --sources", sv(&["explain", "--sources"]));
     let accepted = |r: &Run| r.rc == 0 || r.rc == 1;
     if accepted(&plain) != (validate.rc == 0) {
         problems.push(format!("`config validate` exits {} but `check` exits {}", validate.rc, plain.rc));
     }
     if (show.rc == 0) != (validate.rc == 0) {
         problems.push(format!("`config show` exits {} but `config validate` exits {}", show.rc, validate.rc));
+    }
+    if (sources.rc == 0) != (validate.rc == 0) {
+        problems.push(format!("`explain --sources` exits {} but `config validate` exits {}", sources.rc, validate.rc));
     }
     if (stats.rc == 0) != (validate.rc == 0) {
         problems.push(format!("`stats summary` exits {} but `config validate` exits {}", stats.rc, validate.rc));
